@@ -163,6 +163,9 @@ flow_mod!(c33_kmax, "c33_kmax");
 flow_mod!(c33_ksum, "c33_ksum");
 flow_mod!(c33_kfirst_map, "c33_kfirst_map");
 flow_mod!(c33_kfirst_entries, "c33_kfirst_entries");
+flow_mod!(c33_kfirst_filter, "c33_kfirst_filter");
+flow_mod!(c33_kfirst_fmap, "c33_kfirst_fmap");
+flow_mod!(c33_vcount_map, "c33_vcount_map");
 runner1!(run_c33_cnt, c33_cnt, cnt, i32, usize);
 runner1!(run_c33_fmax, c33_fmax, fmax, i32, i32);
 runner1!(run_c33_vcount, c33_vcount, vcount, (i32, i32), (i32, usize));
@@ -170,6 +173,9 @@ runner1!(run_c33_kmax, c33_kmax, kmax, (i32, i32), (i32, i32));
 runner1!(run_c33_ksum, c33_ksum, ksum, (i32, i32), (i32, i32));
 runner1!(run_c33_kfirst_map, c33_kfirst_map, kfirst_map, (i32, i32), HM);
 runner1!(run_c33_kfirst_entries, c33_kfirst_entries, kfirst_entries, (i32, i32), (i32, i32));
+runner1!(run_c33_kfirst_filter, c33_kfirst_filter, kfirst_filter, (i32, i32), HM);
+runner1!(run_c33_kfirst_fmap, c33_kfirst_fmap, kfirst_fmap, (i32, i32), HM);
+runner1!(run_c33_vcount_map, c33_vcount_map, vcount_map, (i32, i32), (i32, usize));
 
 // ---------------------------------------------------------------- C31
 flow_mod!(c31_batches, "c31_batches");
